@@ -228,6 +228,10 @@ fn execute_net(prop: &str, p: &net::NetProgram) -> RunInfo {
             if ok {
                 follow_up_ok("C20", "dropping a simulation", &mut info);
             }
+            if p.logging {
+                info.probe("run_with_logging_enabled");
+                info.probe_n("log_events_formatted", net::take_logged());
+            }
             match p.end_mode {
                 1 => info.probe("dropped_before_build"),
                 2 => info.probe("dropped_before_start"),
